@@ -126,6 +126,8 @@ def slice_consts(sl):
         for o in ops:
             if 'str' in o:
                 yield 'str', o['str'], bb, node
+            elif 'bytes' in o:
+                yield 'bytes', o['bytes'], bb, node
             elif 'int' in o:
                 yield 'int', o['int'], bb, node
             elif 'uneval' in o:
